@@ -295,7 +295,7 @@ func (h *Hist) genTx() *histTx {
 		f := h.std.Feeder
 		var info []ammtypes.AssetAmountDepth
 		for _, d := range p.Denoms {
-			disp := map[string]string{"uusdc": "USDC", "uatom": "ATOM", "uelys": "ELYS"}[d]
+			disp := h.std.Display[d]
 			info = append(info, ammtypes.AssetAmountDepth{Asset: disp, Amount: math.LegacyNewDecFromInt(h.amt(1_000_000, 50_000_000_000_000)), Depth: D([]string{"0.01", "0.02", "0.1", "0.5", "1"}[r.Intn(5)])})
 		}
 		tx.req.Signer = f
@@ -430,7 +430,7 @@ func (h *Hist) genTx() *histTx {
 		a := h.amt(1_000_000, 20_000_000_000)
 		lev := []string{"1.5", "2", "3", "5", "8", "10"}[r.Intn(6)]
 		sl := D("0")
-		tx.req.Msgs = []sdk.Msg{&lptypes.MsgOpen{Creator: u.Addr.String(), CollateralAsset: "uusdc", CollateralAmount: a, AmmPoolId: p.Id, Leverage: D(lev), StopLossPrice: sl}}
+		tx.req.Msgs = []sdk.Msg{&lptypes.MsgOpen{Creator: u.Addr.String(), CollateralAsset: h.std.USDC, CollateralAmount: a, AmmPoolId: p.Id, Leverage: D(lev), StopLossPrice: sl}}
 		tx.f = J{"pool": p.Id, "collateral": a.String(), "leverage": lev}
 	case "lp.close", "lp.closePositions", "lp.claim":
 		all := app.LeveragelpKeeper.GetAllPositions(ctx)
@@ -486,7 +486,7 @@ func (h *Hist) genTx() *histTx {
 	case "perp.open":
 		p := h.pool(func(q PoolRef) bool { return q.Perp })
 		long := r.Intn(2) == 0
-		colDenom := "uusdc"
+		colDenom := h.std.USDC
 		if long && r.Intn(3) == 0 {
 			colDenom = "uatom"
 		}
@@ -577,19 +577,21 @@ func (h *Hist) genTx() *histTx {
 		from := app.LastBlockHeight() + 2 + int64(r.Intn(3))
 		to := from + 1 + int64(r.Intn(20))
 		per := h.amt(1, 1_000_000)
-		tx.req.Msgs = []sdk.Msg{&mctypes.MsgAddExternalIncentive{Sender: u.Addr.String(), RewardDenom: "uatom", PoolId: p.Id, FromBlock: from, ToBlock: to, AmountPerBlock: per}}
-		tx.f = J{"pool": p.Id, "from": from, "to": to, "perBlock": per.String()}
+		// a third-party incentive in ATOM or in the base currency itself (then USDC is also among the pool's external reward denoms)
+		rd := []string{"uatom", h.std.USDC}[per.Int64()%2]
+		tx.req.Msgs = []sdk.Msg{&mctypes.MsgAddExternalIncentive{Sender: u.Addr.String(), RewardDenom: rd, PoolId: p.Id, FromBlock: from, ToBlock: to, AmountPerBlock: per}}
+		tx.f = J{"pool": p.Id, "from": from, "to": to, "perBlock": per.String(), "denom": rd}
 	case "ts.spotCreate":
-		din := []string{"uusdc", "uatom"}[r.Intn(2)]
+		din := []string{h.std.USDC, "uatom"}[r.Intn(2)]
 		dout := "uatom"
 		if din == "uatom" {
-			dout = "uusdc"
+			dout = h.std.USDC
 		}
 		typ := []tstypes.SpotOrderType{tstypes.SpotOrderType_LIMITBUY, tstypes.SpotOrderType_LIMITSELL, tstypes.SpotOrderType_STOPLOSS, tstypes.SpotOrderType_MARKETBUY}[r.Intn(4)]
 		a := h.amt(1_000, 5_000_000_000)
 		mult := D([]string{"0.5", "0.9", "0.99", "1.01", "1.1", "2"}[r.Intn(6)])
 		rate := h.std.Prices["ATOM"].Mul(mult)
-		tx.req.Msgs = []sdk.Msg{&tstypes.MsgCreateSpotOrder{OrderType: typ, OrderPrice: tstypes.OrderPrice{BaseDenom: "uatom", QuoteDenom: "uusdc", Rate: rate},
+		tx.req.Msgs = []sdk.Msg{&tstypes.MsgCreateSpotOrder{OrderType: typ, OrderPrice: tstypes.OrderPrice{BaseDenom: "uatom", QuoteDenom: h.std.USDC, Rate: rate},
 			OrderAmount: coin(din, a), OwnerAddress: u.Addr.String(), OrderTargetDenom: dout}}
 		tx.f = J{"type": int32(typ), "amount": []string{din, a.String()}, "target": dout, "rate": decRaw(rate)}
 	case "ts.spotCancel", "ts.spotUpdate":
@@ -627,7 +629,7 @@ func (h *Hist) genTx() *histTx {
 		}
 		lev := []string{"1.5", "2", "3", "5"}[r.Intn(4)]
 		tx.req.Msgs = []sdk.Msg{&tstypes.MsgCreatePerpetualOpenOrder{OwnerAddress: u.Addr.String(), TriggerPrice: tstypes.TriggerPrice{TradingAssetDenom: "uatom", Rate: price.Mul(mult)},
-			Collateral: coin("uusdc", a), TradingAsset: "uatom", Position: pos, Leverage: D(lev), TakeProfitPrice: tp, StopLossPrice: D("0"), PoolId: p.Id}}
+			Collateral: coin(h.std.USDC, a), TradingAsset: "uatom", Position: pos, Leverage: D(lev), TakeProfitPrice: tp, StopLossPrice: D("0"), PoolId: p.Id}}
 		tx.f = J{"pool": p.Id, "long": long, "collateral": a.String(), "rate": decRaw(price.Mul(mult))}
 	case "ts.perpCancel", "ts.perpUpdate":
 		all := app.TradeshieldKeeper.GetAllPendingPerpetualOrder(ctx)
@@ -688,7 +690,7 @@ func (h *Hist) genTx() *histTx {
 		default:
 			to = h.pool(nil).Treasury
 		}
-		d := []string{"uusdc", "uatom"}[r.Intn(2)]
+		d := []string{h.std.USDC, "uatom"}[r.Intn(2)]
 		a := h.amt(1, 50_000_000_000)
 		tx.req.Msgs = []sdk.Msg{banktypes.NewMsgSend(u.Addr, sdk.MustAccAddressFromBech32(to), sdk.NewCoins(coin(d, a)))}
 		tx.f = J{"to": to, "coin": []string{d, a.String()}}
@@ -700,7 +702,7 @@ func (h *Hist) genTx() *histTx {
 	}
 	switch r.Intn(6) {
 	case 0:
-		tx.req.Fee = sdk.NewCoins(coin("uusdc", h.amt(1, feeMax)))
+		tx.req.Fee = sdk.NewCoins(coin(h.std.USDC, h.amt(1, feeMax)))
 	case 1:
 		tx.req.Fee = sdk.NewCoins(coin("uatom", h.amt(1, feeMax)))
 	case 2:
@@ -965,6 +967,12 @@ func runHist(t *testing.T, seed int64, n int, out *Out) {
 			wv.Dump = 1 + dr.Intn(4)
 			wv.DumpDenom = [][]string{{"uatom", "uusdc"}, {"uelys", "uusdc"}, {"uatom", "uusdc"}, {"uatom", "uusdc"}}[wv.Dump-1][dr.Intn(2)]
 		}
+		if rand.New(rand.NewSource(hseed^0x1bc0)).Intn(4) == 0 || os.Getenv("VERIF_IBC_USDC") != "" {
+			wv.Usdc = ibcUSDC
+			if wv.DumpDenom == "uusdc" {
+				wv.DumpDenom = ibcUSDC
+			}
+		}
 		if v := os.Getenv("VERIF_ATOM_PRICE"); v != "" {
 			wv.AtomPrice = v
 		}
@@ -1115,11 +1123,18 @@ type histWorldVariant struct {
 	// only: the sales are ordinary recorded txs) — a pool driven to an extreme ratio
 	Dump      int    `json:"dump"`
 	DumpDenom string `json:"dumpDenom"`
+	// Usdc: the denom USDC has on the chain; "" = "uusdc" (as in the repository's tests), otherwise an ibc/… voucher (as in
+	// production: asset-profile BaseDenom "uusdc", Denom ibc/…)
+	Usdc string `json:"usdc,omitempty"`
 }
 
 func histWorld(t *testing.T, hseed int64, wv histWorldVariant) (*World, *Std) {
 	w := NewWorld(t, hseed, 7)
-	std := w.SeedStandardAt(D(wv.AtomPrice))
+	usdc := wv.Usdc
+	if usdc == "" {
+		usdc = "uusdc"
+	}
+	std := w.SeedStandardWith(D(wv.AtomPrice), usdc)
 	if wv.Inflation {
 		w.Seed(func(ctx sdk.Context) {
 			bpy := w.App.ParameterKeeper.GetParams(ctx).TotalBlocksPerYear
